@@ -28,7 +28,13 @@ RULE = ('per round one threshold_proportional case, one threshold_absolute case,
         'threshold_proportional against the float64 run on the same values); the copy flag also spelled 1 / 0 / np.True_ / np.False_ '
         '(rotating, histogram flag:copy=*). p: 0, 1, k/16, k/32, k/8, out-of-range values, non-dyadic (0.07, 0.35, ...), and p chosen '
         'so that p*possible/ud falls on or within 2^-40 / 1e-10 / one ulp of k+.5; passed as float, np.float64 or int. '
-        'thr: k/2, non-dyadic, and exactly equal to a weight. non-trivial = at least one off-diagonal nonzero; '
+        'thr: k/2, non-dyadic, and exactly equal to a weight. After the rounds: 48 (thorough 480) matrices n=2..8 whose DIAGONAL holds NaN / '
+        '+inf / -inf / a mix with finite values (self-connections marked missing), off-diagonal dyadic weights with ties, symmetric two in '
+        'three: threshold_proportional at p = k*ud/possible, a non-dyadic p and 0 / 1 / .1 / .9 (count, diagonal cleared and finite, values, '
+        'strongest, support, symmetry, copy / in-place, same kept multiset as with a zero diagonal) and threshold_absolute (exact values); '
+        '24 (240) int8 / int16 / int32 / int64 matrices n=1..5 whose strongest entry is iinfo(dtype).min (mixed with 0, small integers, '
+        '+-2^(b-2), the type maximum; the minimum and zeros only; every nonzero entry the minimum) for normalize and '
+        'weight_conversion(normalize): W / 2^(b-1) exactly, largest magnitude exactly 1, float result, copy=False refused, model tie. non-trivial = at least one off-diagonal nonzero; '
         'distinct by hash of (function, matrix, parameter, dtype)')
 ASSUMES = ['every generated float enters the oracle and the model as its exact rational value; the only float arithmetic the code does '
            'before a decision is (n*n-n)*p/ud: that product is recomputed in binary64 by the harness and handed to the model as the '
@@ -39,7 +45,9 @@ ASSUMES = ['every generated float enters the oracle and the model as its exact r
            'argsort tie order is unspecified: kept sets are compared as value multisets when the cut falls inside a tie',
            '1/w and w/max are compared with relative tolerance 1e-15 * 8 on the implementation and 1e-12 against the model',
            'integer / bool matrices are ordinary inputs: invert / normalize must return the FLOAT result for them (copy=True) and refuse copy=False with BCTParamError, argument untouched (/repo 46a4b71, e4e2655)',
-           'NaN / inf entries are not real weights and are not generated; normalize of an all-zero matrix (0/0) must give NaN '
+           'NaN / inf entries are not real weights and are not generated OFF the diagonal; on the diagonal (self-connections marked missing) they are '
+           'generated for threshold_proportional / threshold_absolute only, which clear the diagonal before anything else (direct oracle, the model '
+           'takes rationals); normalize of an all-zero matrix (0/0) must give NaN '
            'everywhere and of a 0x0 matrix must raise ValueError (what the code does; the clause "largest magnitude becomes 1" '
            'has no content there, theorem C17_normalize_domain); logtransform and autofix are not named by the property '
            '(their last statements rebind W, so copy=False does not leave the result in the argument: C17_rebind_not_inplace; '
@@ -587,6 +595,158 @@ def util_cases(ctx, bct, lines, pend):
         ctx.count('wc:unknown')
 
 
+# ---------------------------------------------------------------- self-connections marked missing (NaN / inf on the diagonal)
+def diag_marked_cases(ctx, bct, t):
+    """threshold_proportional / threshold_absolute clear the diagonal FIRST: whatever the diagonal holds - NaN or +-inf where
+    self-connections were marked missing - must not influence anything (which branch, how many connections, which ones).
+    Off-diagonal weights: small dyadic values with many ties, symmetric (two cases in three) or not.  Direct oracle only
+    (the model takes rationals): the expectation is the one of the same matrix with a zero diagonal."""
+    r = ctx.nprng
+    n = int(r.randint(2, 9))
+    sym = t % 3 != 2
+    W = fill(r, n, DY[:int(r.randint(2, len(DY) + 1))], float(r.choice([0.5, 0.8, 1.0])), sym, False)
+    Wd = [[F(0) if i == j else W[i][j] for j in range(n)] for i in range(n)]
+    marks = [[np.nan], [np.inf], [-np.inf], [np.nan, np.inf], [np.nan, 0.0, 1.0], [np.nan, -np.inf, 2.5]][t % 6]
+    dg = [float(marks[int(r.randint(0, len(marks)))]) for _ in range(n)]
+    if not any(math.isnan(x) for x in dg) and t % 2 == 0:
+        dg[int(r.randint(0, n))] = float('nan')
+    A0 = npm(Wd, 'float')
+    for i in range(n):
+        A0[i, i] = dg[i]
+    symbranch, edge = allclose_frac(Wd)
+    if edge:
+        return
+    ud = 2 if symbranch else 1
+    poss = n * n - n
+    links = [(i, j) for i in range(n) for j in range(n) if Wd[i][j] != 0 and (not symbranch or i < j)]
+    mk = 'nan' if all(math.isnan(x) for x in dg) else 'inf' if not any(math.isnan(x) for x in dg) else 'mixed'
+    ctx.count('diag_marked:' + mk); ctx.count('diag_marked:' + ('sym' if symbranch else 'asym'))
+    Wtxt = [[repr(dg[i]) if i == j else str(Wd[i][j]) for j in range(n)] for i in range(n)]
+    # ---- threshold_proportional: p with an odd and an even number of kept pairs, 0 and 1
+    k = int(r.randint(0, max(1, poss // ud) + 1))
+    for p in dict.fromkeys([k * ud / poss, float(r.choice([0.25, 0.3, 0.5, 0.55, 0.75])), float(r.choice([0.0, 1.0, 0.1, 0.9]))]):
+        if not 0 <= p <= 1:
+            continue
+        case = {'fn': 'threshold_proportional', 'W': Wtxt, 'p': repr(p), 'dtype': 'float', 'family': 'diag_marked_' + mk}
+        ctx.case(case, nontrivial=bool(links))
+        A = A0.copy()
+        try:
+            R = call(bct.threshold_proportional, A, p)
+        except Exception as e:
+            ctx.fail('threshold_proportional:raises', 'raised %r' % (e,), case)
+            continue
+        en = tround(F((n * n - n) * p / ud))
+        want = ud * min(en, len(links))
+        ok = ctx.check(isinstance(R, np.ndarray) and R.shape == (n, n) and bool(np.all(np.isfinite(R))), 'threshold_proportional:shape',
+                       'result is not a finite n x n array (the diagonal had to be cleared)', case)
+        if not ok:
+            continue
+        Rq = frmat(R)
+        nnz = sum(1 for i in range(n) for j in range(n) if Rq[i][j] != 0)
+        ctx.check(all(Rq[i][i] == 0 for i in range(n)), 'threshold_proportional:diag', 'diagonal not cleared', case)
+        ctx.check(nnz == want, 'threshold_proportional:count', 'kept %d connections, expected %d' % (nnz, want), case)
+        ctx.check(all(Rq[i][j] in (0, Wd[i][j]) for i in range(n) for j in range(n)), 'threshold_proportional:values',
+                  'an output entry is neither 0 nor the input entry', case)
+        kept = [Wd[i][j] for (i, j) in links if Rq[i][j] != 0]
+        dropped = [Wd[i][j] for (i, j) in links if Rq[i][j] == 0]
+        ctx.check(not kept or not dropped or min(kept) >= max(dropped), 'threshold_proportional:strongest', 'a dropped connection is stronger than a kept one', case)
+        ctx.check(len(kept) * ud == nnz, 'threshold_proportional:support', 'a nonzero output cell is not a link of the input', case)
+        if symbranch:
+            ctx.check(all(Rq[i][j] == Rq[j][i] for i in range(n) for j in range(n)), 'threshold_proportional:sym', 'symmetric input gave asymmetric output', case)
+        ctx.check(np.array_equal(A, A0, equal_nan=True), 'threshold_proportional:copy', 'copy=True modified the argument', case)
+        ctx.check(R is not A and not np.shares_memory(R, A), 'threshold_proportional:copy', 'copy=True returned (a view of) the argument', case)
+        Ac = A0.copy(); R2 = bct.threshold_proportional(Ac, p, copy=False)
+        ctx.check(R2 is Ac and np.array_equal(Ac, R), 'threshold_proportional:inplace', 'copy=False does not leave the result in the argument', case)
+        # the same call on the matrix with a zero diagonal keeps the same multiset of values (tie order aside)
+        R0 = bct.threshold_proportional(npm(Wd, 'float'), p)
+        ctx.check(tp_equiv(frmat(R0), R) is not None, 'threshold_proportional:count', 'the kept set depends on what the diagonal held', case)
+    # ---- threshold_absolute
+    flat = [x for row in Wd for x in row if x != 0]
+    thr = flat[int(r.randint(0, len(flat)))] if flat and r.rand() < 0.5 else F(int(r.randint(-2, 8)), 2)
+    case = {'fn': 'threshold_absolute', 'W': Wtxt, 'thr': str(thr), 'dtype': 'float', 'family': 'diag_marked_' + mk}
+    ctx.case(case, nontrivial=bool(links))
+    E = expected('threshold_absolute', Wd, thr)
+    A = A0.copy()
+    try:
+        R = call(bct.threshold_absolute, A, float(thr))
+        ok = isinstance(R, np.ndarray) and R.shape == (n, n) and bool(np.all(np.isfinite(R))) and frmat(R) == E
+        ctx.check(ok, 'threshold_absolute:exact', 'result differs from the specified values (diagonal cleared, entries below thr zeroed)', case)
+        ctx.check(np.array_equal(A, A0, equal_nan=True) and R is not A and not np.shares_memory(R, A), 'threshold_absolute:copy', 'copy=True modified / returned the argument', case)
+        Ac = A0.copy(); R2 = bct.threshold_absolute(Ac, float(thr), copy=False)
+        ctx.check(R2 is Ac and np.array_equal(Ac, R), 'threshold_absolute:inplace', 'copy=False does not leave the result in the argument', case)
+    except Exception as e:
+        ctx.fail('threshold_absolute:exact', 'raised %r' % (e,), case)
+
+
+# ---------------------------------------------------------------- signed integer matrices whose strongest entry is the type minimum
+INT_TYPES = [np.int8, np.int16, np.int32, np.int64]
+
+
+def int_min_cases(ctx, bct, t, lines, pend):
+    """normalize / weight_conversion('normalize') on an int8 / int16 / int32 / int64 matrix whose largest magnitude is
+    iinfo(dtype).min = -2^(b-1): |min| is not representable in the type itself (np.abs wraps to min), the float result is
+    W / 2^(b-1) and its largest magnitude is exactly 1.  Other entries: 0, small integers, powers of two, the type maximum
+    (b <= 32) - all exact in binary64, and the divisor is a power of two, so the expectation is exact."""
+    r = ctx.nprng
+    ty = INT_TYPES[t % 4]
+    ii = np.iinfo(ty)
+    b = ii.bits
+    n = int(r.randint(1, 6))
+    pool = [0, 0, 1, -1, 3, -7, 2 ** (b - 2), -(2 ** (b - 2)), 100 if b > 8 else 5]
+    if b <= 32:
+        pool += [ii.max, ii.max - 1]
+    style = t // 4 % 3               # 0: mixed; 1: the minimum and zeros only; 2: every nonzero entry is the minimum
+    Wi = [[0] * n for _ in range(n)]
+    for i in range(n):
+        for j in range(n):
+            if r.rand() < 0.7:
+                Wi[i][j] = ii.min if style == 2 else 0 if style == 1 else int(pool[int(r.randint(0, len(pool)))])
+    symm = r.rand() < 0.5
+    if symm:
+        Wi = [[Wi[min(i, j)][max(i, j)] for j in range(n)] for i in range(n)]
+    for _ in range(int(r.randint(1, 3))):
+        i, j = int(r.randint(0, n)), int(r.randint(0, n))
+        Wi[i][j] = ii.min
+        if symm:
+            Wi[j][i] = ii.min
+    W = [[F(x) for x in row] for row in Wi]
+    A0 = np.array(Wi, dtype=ty).reshape(n, n)
+    name = np.dtype(ty).name
+    fam = 'int_min:' + name
+    ctx.count('int_min:' + name); ctx.count('int_min:style%d' % style)
+    E = expected('normalize', W)
+    case = {'fn': 'normalize', 'W': strs(W), 'dtype': name, 'family': fam}
+    ctx.case(case, nontrivial=True)
+    R = check_util(ctx, 'normalize', bct.normalize, (), A0, W, E, F(8, 10 ** 15), case, 'int', 'normalize:spec')
+    if R is not None:
+        ctx.check(float(np.abs(R).max()) == 1.0, 'normalize:max_is_one', 'largest magnitude of the result is not exactly 1', case)
+    wcase = {'fn': 'weight_conversion', 'wcm': 'normalize', 'W': strs(W), 'dtype': name, 'family': fam}
+    ctx.case(wcase, nontrivial=True)
+    Aw = A0.copy()
+    with warnings.catch_warnings(), np.errstate(all='ignore'):
+        warnings.simplefilter('ignore')
+        try:
+            Rw = call(bct.weight_conversion, Aw, 'normalize')
+            ok = isinstance(Rw, np.ndarray) and Rw.shape == (n, n) and Rw.dtype.kind == 'f' and all(
+                close_to(Rw[i, j], E[i][j], F(8, 10 ** 15)) for i in range(n) for j in range(n))
+            ctx.check(ok, 'weight_conversion:normalize', 'result differs from W / max|W|', wcase)
+            ctx.check(ok and float(np.abs(Rw).max()) == 1.0, 'weight_conversion:normalize', 'largest magnitude of the result is not exactly 1', wcase)
+            ctx.check(np.array_equal(Aw, A0) and Aw.dtype == A0.dtype, 'weight_conversion:copy', 'copy=True modified the argument', wcase)
+        except Exception as e:
+            ctx.fail('weight_conversion:normalize', 'raised %r' % (e,), wcase)
+        Ac = A0.copy()
+        try:
+            bct.weight_conversion(Ac, 'normalize', copy=False); ew = None
+        except Exception as e:
+            ew = e
+        ctx.check(isinstance(ew, BCTPE) and np.array_equal(Ac, A0), 'weight_conversion:inplace',
+                  'copy=False on a %s array must raise BCTParamError and leave the argument alone (got %r)' % (name, ew), wcase)
+    ml = enc_mat(W, enc_qb)
+    lines.append('wc_str %s %s' % (ml, enc_codes('normalize'))); pend.append(('wc_str', wcase, R, E, None))
+    for c in (1, 0):
+        lines.append('st_wc %s %s 0 %d' % (ml, enc_codes('normalize'), c)); pend.append(('st_wc', wcase, R, E, (c, A0, 'normalize', 0)))
+
+
 def round_case(ctx, lines, pend):
     from bct.utils.miscellaneous_utilities import teachers_round
     r = ctx.nprng
@@ -678,6 +838,12 @@ def run(ctx):
         tp_case(ctx, bct, lines, pend)
         util_cases(ctx, bct, lines, pend)
         round_case(ctx, lines, pend)
+    # ---------------- NaN / inf diagonals (self-connections marked missing) for the two thresholding routines; signed integer
+    # matrices whose strongest entry is the type minimum for normalize (after the main stream: its draws stay what they were)
+    for t in range(ctx.scale(48, 480)):
+        diag_marked_cases(ctx, bct, t)
+    for t in range(ctx.scale(24, 240)):
+        int_min_cases(ctx, bct, t, lines, pend)
 
     # ---------------- correspondence: extracted Coq model (pure functions AND the store programs) on the same inputs
     res = run_model(ID, lines)
